@@ -30,7 +30,19 @@ static const uint64_t FAM_A = 256ull * 4 * 1601 * 2;
 static const uint64_t FAM_B = 256ull * 256 * 12 * NLEN_B * 2;
 static const uint64_t FAM_C = 64ull * 256 * 12 * 25 * NLEN_C * 2;
 
-extern "C" uint64_t vp_enum_count() { return FAM_A + FAM_B + FAM_C; }
+// family D: very long packets (the frame-size fields are 16 bits wide): TOC x second byte x total length around 64 Ki / 128 Ki multiples x framing
+static const int HUGE_BASE[10] = {2551, 2552, 65535, 65536, 65537, 66811, 131071, 131072, 133623, 61299};
+static const uint8_t HUGE_B1[4] = {0x01, 0x02, 0x30, 0x82};
+static const uint64_t FAM_D = 256ull * 4 * 10 * 7 * 2;
+extern "C" uint64_t vp_enum_count() { return FAM_A + FAM_B + FAM_C + FAM_D; }
+
+static void emit_huge(std::vector<uint8_t>& out, int framing, int len, uint8_t fill, const std::vector<uint8_t>& hdr) {
+  out.clear();
+  out.push_back(3); out.push_back((uint8_t)framing);
+  out.push_back((uint8_t)(len >> 16)); out.push_back((uint8_t)(len >> 8)); out.push_back((uint8_t)len);
+  out.push_back(fill); out.push_back((uint8_t)hdr.size());
+  out.insert(out.end(), hdr.begin(), hdr.end());
+}
 
 static void emit(std::vector<uint8_t>& out, int framing, int len, uint8_t fill, const std::vector<uint8_t>& hdr) {
   out.clear();
@@ -74,6 +86,16 @@ extern "C" void vp_enum_case(uint64_t idx, std::vector<uint8_t>& out) {
     return;
   }
   idx -= FAM_B;
+  if (idx >= FAM_C) {
+    idx -= FAM_C;
+    int framing = idx % 2; idx /= 2;
+    int jit = (int)(idx % 7) - 3; idx /= 7;
+    int base = HUGE_BASE[idx % 10]; idx /= 10;
+    int b1 = HUGE_B1[idx % 4]; idx /= 4;
+    hdr.push_back((uint8_t)idx); hdr.push_back((uint8_t)b1);
+    emit_huge(out, framing, base + jit, 0x00, hdr);
+    return;
+  }
   {
     int framing = idx % 2; idx /= 2;
     int li = idx % NLEN_C; idx /= NLEN_C;
@@ -217,7 +239,23 @@ static int boundary_len(Choice& c) {
 }
 
 int vp_case(Choice& c, Report& rep) {
-  int family = c.irange(0, 2);
+  int family = c.irange(0, 3);
+  if (family == 3) {
+    // very long packets: header bytes + fill, total length up to 2^21 (same form as the enumerated family D)
+    int framing_sel3 = c.irange(0, 1);
+    int lenraw = c.irange(0, 0xFFFFFF);
+    int len = (lenraw >> 16) < 16 ? lenraw : HUGE_BASE[lenraw % 10] + (lenraw >> 8) % 7 - 3;
+    if (len > (1 << 21)) len = 1 << 21;
+    uint8_t fill = c.byte();
+    int nh = c.byte();
+    std::vector<uint8_t> big((size_t)len, fill);
+    for (int i = 0; i < nh; i++) { uint8_t b = c.byte(); if (i < len) big[(size_t)i] = b; }
+    rep.label("family:huge");
+    rep.note("very long packet: framing=%s total_len=%d fill=0x%02x header=%02x %02x", framing_sel3 ? "self-delimited" : "standard", len, fill, len > 0 ? big[0] : 0, len > 1 ? big[1] : 0);
+    if (len > 65535) { rep.nontrivial(); rep.label("len>64Ki"); }
+    rep.fingerprint(fnv1a(big.data(), std::min<size_t>(big.size(), 4))); rep.fingerprint(len); rep.fingerprint(framing_sel3);
+    return check_packet(big.data(), len, framing_sel3, false, rep);
+  }
   std::vector<uint8_t> pkt;
   int framing_sel = 2;
   if (family == 2) {
